@@ -14,6 +14,7 @@
 package main
 
 import (
+	"reflect"
 	"flag"
 	"fmt"
 	"go/ast"
@@ -646,6 +647,65 @@ func main() {
 		}
 		fmt.Fprintf(&b, "def %sStringCases : List (String × String) := [%s]\n", lower, strings.Join(ps, ", "))
 		fmt.Fprintf(&b, "def %sStringDefault : String := %s\n\n", lower, lit(def))
+	}
+	// the wire table: message, Go field, wire kind, field number, repeated — read from the struct tags of the
+	// generated protobuf code (internal/protobuf/*.pb.go)
+	{
+		pbset := token.NewFileSet()
+		pbpkgs, err := parser.ParseDir(pbset, filepath.Join(*repo, "internal", "protobuf"), func(fi os.FileInfo) bool {
+			return strings.HasSuffix(fi.Name(), ".pb.go") && !strings.HasSuffix(fi.Name(), "_grpc.pb.go")
+		}, 0)
+		if err != nil {
+			fmt.Fprintln(os.Stderr, err)
+			os.Exit(2)
+		}
+		var rows []string
+		var pbnames []string
+		for _, p := range pbpkgs {
+			for n := range p.Files {
+				pbnames = append(pbnames, n)
+			}
+		}
+		sort.Strings(pbnames)
+		for _, n := range pbnames {
+			for _, p := range pbpkgs {
+				f, ok := p.Files[n]
+				if !ok {
+					continue
+				}
+				for _, d := range f.Decls {
+					gd, ok := d.(*ast.GenDecl)
+					if !ok {
+						continue
+					}
+					for _, sp := range gd.Specs {
+						ts, ok := sp.(*ast.TypeSpec)
+						if !ok {
+							continue
+						}
+						st, ok := ts.Type.(*ast.StructType)
+						if !ok {
+							continue
+						}
+						for _, fl := range st.Fields.List {
+							if fl.Tag == nil || len(fl.Names) != 1 {
+								continue
+							}
+							tag := reflect.StructTag(strings.Trim(fl.Tag.Value, "`")).Get("protobuf")
+							if tag == "" {
+								continue
+							}
+							parts := strings.Split(tag, ",")
+							if len(parts) < 3 {
+								continue
+							}
+							rows = append(rows, fmt.Sprintf("(%s, %s, %s, %s, %v)", lit(ts.Name.Name), lit(fl.Names[0].Name), lit(parts[0]), parts[1], parts[2] == "rep"))
+						}
+					}
+				}
+			}
+		}
+		fmt.Fprintf(&b, "/-- wire table of internal/protobuf: (message, Go field, wire kind, field number, repeated) -/\ndef pbFields : List (String × String × String × Nat × Bool) := [\n  %s]\n\n", strings.Join(rows, ",\n  "))
 	}
 	fmt.Fprintf(&b, "/-- fields of struct Raft -/\ndef nodeFields : List String := %s\n", strList(fieldOrder))
 	fmt.Fprintf(&b, "/-- fields assigned in some method, i.e. after NewRaft published the object -/\ndef mutatedFields : List String := %s\n", strList(keys(assigned)))
